@@ -171,6 +171,36 @@ pub fn via_command<const S: usize>(apdu: &[u8]) -> Got {
     }
 }
 
+/// Data beyond 65535 bytes cannot be framed in one APDU: it reaches the conversion through command
+/// chaining into a large command buffer (`extend_from_command_view`).
+fn via_chained<const S: usize>(cla: u8, ins: u8, p1: u8, p2: u8, data: &[u8], buf: &mut Vec<u8>) -> Got {
+    let mut chunks = data.chunks(60000);
+    let first = chunks.next().unwrap_or(&[]);
+    if !frame(cla, ins, p1, p2, first, 3, buf) {
+        return Got::NotAnApdu;
+    }
+    let mut c = match iso7816::Command::<S>::try_from(&buf[..]) {
+        Ok(c) => c,
+        Err(_) => return Got::NotAnApdu,
+    };
+    for ch in chunks {
+        if !frame(cla, ins, p1, p2, ch, 3, buf) {
+            return Got::NotAnApdu;
+        }
+        let v = match CommandView::try_from(&buf[..]) {
+            Ok(v) => v,
+            Err(_) => return Got::NotAnApdu,
+        };
+        if c.extend_from_command_view(v).is_err() {
+            return Got::NotAnApdu;
+        }
+    }
+    let d = c.data();
+    let lo = d.as_ptr() as usize;
+    let hi = lo + d.len();
+    observe(ctap1::Request::try_from(&c), lo, hi)
+}
+
 struct Counters {
     calls: u64,
     not_apdu: u64,
@@ -209,6 +239,11 @@ fn judge(rep: &mut Rep, cnt: &mut Counters, cla: u8, ins: u8, p1: u8, p2: u8, da
             return false;
         }
     };
+    settle(rep, cnt, exp, got, cla, ins, p1, p2, data, enc, entry, apdu)
+}
+
+#[allow(clippy::too_many_arguments)]
+fn settle(rep: &mut Rep, cnt: &mut Counters, exp: Exp, got: Got, cla: u8, ins: u8, p1: u8, p2: u8, data: &[u8], enc: u8, entry: u8, apdu: &[u8]) -> bool {
     cnt.calls += 1;
     let ok = match (&exp, &got) {
         (_, Got::NotAnApdu) => {
@@ -390,6 +425,37 @@ pub fn run(rep: &mut Rep) {
                                 judge(rep, &mut cnt, cla, ins, p1, rng2.u64() as u8, &data, enc, &mut buf, entry);
                             }
                         }
+                    }
+                }
+            }
+        }
+    }
+    // ---- (2c) data beyond 65535 bytes: command chaining into a 140 000-byte command buffer (S167)
+    let mut k3 = 0u64;
+    for &ins in &[1u8, 2, 3, 0] {
+        for &l in &[65535usize, 65536, 65536 + 63, 65536 + 64, 65536 + 65, 65536 + 66, 65536 + 65 + 77, 65536 + 65 + 255, 70000, 131072 + 64, 131072 + 65 + 5] {
+            for kh_mode in 0..3u8 {
+                for p1 in [3u8, 7, 8, 0] {
+                    k3 += 1;
+                    if !rep.mine(k3) {
+                        continue;
+                    }
+                    if !rep.begin("chained-beyond-65535") {
+                        continue;
+                    }
+                    let data = make_data(&mut rng2, l, kh_mode);
+                    let p2 = rng2.u64() as u8;
+                    let exp = reference(0, ins, p1, &data);
+                    rep.input_hash(crate::rng::mix(k3 ^ 0xc08c));
+                    match guard(|| via_chained::<140000>(0, ins, p1, p2, &data, &mut buf)) {
+                        Ok(got) => {
+                            settle(rep, &mut cnt, exp, got, 0, ins, p1, p2, &data, 3, 99, &data[..80]);
+                        }
+                        Err(p) => rep.violation(
+                            &format!("C08|panic|{}", panic_site(&p)),
+                            format!("chained command ins={:#04x} p1={:#04x} data {} bytes: {}", ins, p1, data.len(), p),
+                            &data[..80],
+                        ),
                     }
                 }
             }
